@@ -9,6 +9,7 @@ package zz_verif
 import (
 	"flag"
 	"os"
+	"path/filepath"
 	"strings"
 
 	"github.com/reedom/convergen/pkg/config"
@@ -163,6 +164,10 @@ func fsWrites(logAt int) (ws []fsWrite, stray int) {
 		switch vrt.EffectOp(i) {
 		case "WriteFile":
 			ws = append(ws, fsWrite{openAt: i, at: i, endAt: i, path: vrt.EffectStr(i, 0), content: vrt.EffectStr(i, 1), mode: vrt.EffectInt(i, 2), whole: true})
+			// os.WriteFile truncates the file and then writes: when it FAILS (half-way: a full disk,
+			// a quota) the target is left torn, although a run that ends in an error must leave the
+			// output path exactly as it was. Only a replacement by rename is all-or-nothing.
+			vrt.Assert("a-failing-write-leaves-the-output-as-it-was", !vrt.Bool("WriteFile.err"))
 		case "OpenFile":
 			if i == logAt {
 				continue
@@ -186,7 +191,46 @@ func fsWrites(logAt int) (ws []fsWrite, stray int) {
 			const oWronly, oRdwr, oCreate, oTrunc = 0x1, 0x2, 0x40, 0x200
 			w.whole = writes == 1 && flags&(oWronly|oRdwr) != 0 && flags&oCreate != 0 && flags&oTrunc != 0
 			ws = append(ws, w)
-		case "FileWrite", "FileClose":
+		case "CreateTemp":
+			// the atomic form: a temporary file NEXT TO the target is written, closed, given its
+			// mode and then renamed over the target; a failure on the way removes it again
+			name := vrt.EffectStr(i, 2)
+			if name == "" {
+				continue // could not be created: nothing happened
+			}
+			w := fsWrite{openAt: -1, at: -1, endAt: i}
+			writes, closed, renamed, removed := 0, false, false, false
+			for j := i + 1; j < n; j++ {
+				op := vrt.EffectOp(j)
+				if used[j] || (op != "FileWrite" && op != "FileClose" && op != "Chmod" && op != "Rename" && op != "Remove") || vrt.EffectStr(j, 0) != name {
+					continue
+				}
+				used[j] = true
+				w.endAt = j
+				switch op {
+				case "FileWrite":
+					writes++
+					w.content = vrt.EffectStr(j, 1)
+				case "FileClose":
+					closed = true
+				case "Chmod":
+					w.mode = vrt.EffectInt(j, 1)
+				case "Rename":
+					renamed = true
+					w.openAt, w.at = j, j // the target is touched here, and only here
+					w.path = vrt.EffectStr(j, 1)
+					w.whole = writes == 1 && closed
+				case "Remove":
+					removed = true
+				}
+			}
+			vrt.Assert("temporary-file-next-to-the-target", !renamed || vrt.EffectStr(i, 0) == filepath.Dir(w.path))
+			// nothing is left behind: the temporary file became the target, or was removed
+			vrt.Assert("temporary-file-renamed-or-removed", (renamed && !vrt.Bool("Rename.err")) || removed)
+			if renamed {
+				ws = append(ws, w)
+			}
+		case "FileWrite", "FileClose", "Chmod", "Rename", "Remove":
 			if !used[i] {
 				stray++
 			}
@@ -317,7 +361,7 @@ func C15Run() {
 	} else if nWrite == 1 {
 		// the only error after a write attempt is the write's own failure
 		op := vrt.EffectOp(n - 1)
-		vrt.Assert("error-after-write-is-write-failure", op == "WriteFile" || op == "OpenFile" || op == "FileWrite" || op == "FileClose")
+		vrt.Assert("error-after-write-is-write-failure", op == "WriteFile" || op == "OpenFile" || op == "FileWrite" || op == "FileClose" || op == "Rename" || op == "Remove")
 	}
 	vrt.Reach("end")
 }
